@@ -195,6 +195,15 @@ def loop_protocol(ctx, F):
                                (("field", ("variant", ("call", "<core::result::Result<T, E> as core::ops::Try>::branch", (rcall,)), "Break"), 0),))):
                         if ret == w:
                             okr = True
+                    if not okr:
+                        # any other spelling: the returned value evaluated with the reader's error as an opaque object
+                        from .. import evalx
+                        try:
+                            got = evalx.ev(S, F, p.ret, {"symbolic": True, "subst": {ep: ("obj", "e")}})
+                        except (evalx.Unknown, evalx.Panics):
+                            got = None
+                        if got == ("Err", ("adt", "errors::GeneratorOrIOError::IOError", ("obj", "e"))):
+                            okr = True
                 if okr:
                     have_err_exit = True
                 else:
